@@ -32,8 +32,12 @@ ASSUMPTIONS = [
 ]
 
 SHAPES = {"heating": dict(hs=1.2, cs=0.0), "cooling": dict(hs=0.0, cs=1.5), "both": dict(hs=1.0, cs=1.3), "flat": dict(hs=0.0, cs=0.0),
-          "narrow_band": dict(hs=0.8, cs=0.9, hbp=60.0, cbp=62.0)}
-REGIMES = {"none": {}, "weekend": dict(weekend_factor=1.5), "summer": dict(summer_factor=1.6)}
+          "narrow_band": dict(hs=0.8, cs=0.9, hbp=60.0, cbp=62.0),
+          # cooling that only shows on the hottest handful of days (fewer than segment_minimum_count): balance point parks on a bound
+          "rare_cooling": dict(hs=1.2, cs=6.0, hbp=55.0, cbp=84.0)}
+REGIMES = {"none": {}, "weekend": dict(weekend_factor=1.5), "summer": dict(summer_factor=1.6),
+           # a constant load switched on at day 200: residuals with lag-1 autocorrelation near 1 (effective sample size ~ #coefficients)
+           "step": dict(step=(200, 35.0))}
 NOISES = [0.005, 0.05, 0.2]
 OUTLIERS = [0, 3]
 LENGTHS = [365, 330]
@@ -158,6 +162,10 @@ def check_component(where, name, comp, key):
                 # a branch with zero slope still carries a smoothing fraction: the objective lets it take part in the
                 # normalisation of the two fractions, the read-back path zeroes it first
                 cause = "smoothing_fraction_of_zero_slope_branch"
+            elif "hdd_bp" in g and "hdd_k" not in g and comp.model_key == "c_hdd_tidd" and (
+                    (g.get("hdd_beta") == 0 and g["cdd_bp"] < comp.T_min_seg) or (g.get("cdd_beta") == 0 and g["hdd_bp"] > comp.T_max_seg)):
+                # same clamp, reached from an unsmoothed two-slope vector whose one slope is zero
+                cause = "balance_point_clamped_to_segment_limit"
             elif "c_hdd_bp" in g and not (comp.T_min_seg <= g["c_hdd_bp"] <= comp.T_max_seg):
                 # one-sided model whose balance point lies outside the segment limits: scored where the optimiser put it,
                 # stored clamped to the limit
